@@ -384,6 +384,16 @@ func (r *Run) tryReplay(v *Result, rf *ReplayFile) {
 			n := fi.PNames[i]
 			blk := smtName("blk!" + n)
 			off := smtName(n + "#off")
+			switch u := t.Underlying().(type) {
+			case *types.Slice:
+				if al := strideOf(u.Elem()); al > 1 {
+					off = fmt.Sprintf("(concat ((_ extract 63 %d) %s) #b%0*d)", log2(al), off, log2(al), 0)
+				}
+			case *types.Pointer:
+				if al := alignOf(u.Elem()); al > 1 {
+					off = fmt.Sprintf("(concat ((_ extract 63 %d) %s) #b%0*d)", log2(al), off, log2(al), 0)
+				}
+			}
 			if _, ok := sc["blk!"+n]; !ok {
 				continue
 			}
@@ -394,17 +404,23 @@ func (r *Run) tryReplay(v *Result, rf *ReplayFile) {
 					continue
 				}
 				ss := cellsOf(u.Elem())
+				mo := memOffsOf(u.Elem())
+				stride := strideOf(u.Elem())
 				tot := int(ln) * len(ss)
 				if len(ss) > 1 && ln > 64 {
 					tot = 64 * len(ss)
 				}
 				for k := 0; k < tot; k++ {
-					reqs = append(reqs, heapReq{key: fmt.Sprintf("heap:%d:%d", i, k), sort: ss[k%len(ss)], blk: blk, off: fmt.Sprintf("(bvadd %s #x%016x)", off, k)})
+					addr := (k/len(ss))*stride + mo[k%len(ss)]
+					mt := memTagsOf(u.Elem())
+					reqs = append(reqs, heapReq{key: fmt.Sprintf("heap:%d:%d", i, k), sort: ss[k%len(ss)], blk: fmt.Sprintf("(bvadd %s #x%08x)", blk, mt[k%len(ss)]), off: fmt.Sprintf("(bvadd %s #x%016x)", off, addr)})
 				}
 			case *types.Pointer:
 				ss := cellsOf(u.Elem())
+				mo := memOffsOf(u.Elem())
+				mt := memTagsOf(u.Elem())
 				for k := range ss {
-					reqs = append(reqs, heapReq{key: fmt.Sprintf("heap:%d:%d", i, k), sort: ss[k], blk: blk, off: fmt.Sprintf("(bvadd %s #x%016x)", off, k)})
+					reqs = append(reqs, heapReq{key: fmt.Sprintf("heap:%d:%d", i, k), sort: ss[k], blk: fmt.Sprintf("(bvadd %s #x%08x)", blk, mt[k]), off: fmt.Sprintf("(bvadd %s #x%016x)", off, mo[k])})
 				}
 			}
 		}
